@@ -12,8 +12,12 @@ import wire
 
 LEAN_MODULES = ["PySMT.Props.C02"]
 RULE = ("type-directed random QF, UF-free formulas of every sort (Bool/Int/Real/BV w in {1,2,3,4,8}/String/Array) with "
-        "corner-value constants, total and partial assignments, both completion modes; a case is non-trivial when the "
-        "formula is not itself a constant; distinct = distinct (formula, assignment) wire encodings")
+        "corner-value constants, total and partial assignments, both completion modes, plus a stream of formulas on "
+        "which MGSubstituter's rebuilding changes the term (Div by a symbol that becomes a constant, ToReal of a symbol, "
+        "array values whose entries change, array-valued assignments); every case is checked against the Lean reference "
+        "evaluator (S) and get_value / satisfies are compared end to end with the Lean model getValue' / satisfies' (K); "
+        "a case is non-trivial when the formula is not itself a constant; distinct = distinct (formula, assignment) "
+        "wire encodings")
 ASSUMPTIONS = ["arrays: finitely supported interpretations only", "reals are rationals",
                "interpretations under which a division by zero is evaluated are skipped (property proviso)"]
 
@@ -95,18 +99,201 @@ def run_ground(ctx, env, formulas, tag):
                          "ground %s folded to %r, SMT-LIB value is %r" % (semantic.readable(f), out, expected), rep)
 
 
+
+def array_equalities(env, widths):
+    """ground (dis)equalities between array-value literals over a FINITE index sort, where extensional
+    equality depends on whether the assigned indexes cover the whole index domain: same / different
+    defaults x assigned sets of size 0, 1, w, 2w-1, 2w, 2w+1, 2^w-1, 2^w x agreeing / one differing /
+    one missing entry, for BV index widths in `widths` and for Bool; plus select/store on them"""
+    from pysmt.typing import INT, BVType
+    m = env.formula_manager
+    out = []
+    for w in widths:
+        it = BVType(w)
+        dom = list(range(1 << w))
+        sizes = sorted({k for k in (0, 1, w, 2 * w - 1, 2 * w, 2 * w + 1, (1 << w) - 1, 1 << w) if 0 <= k <= len(dom)})
+        for k in sizes:
+            for rot in (0, 1):
+                idxs = [dom[(j + rot * 3) % len(dom)] for j in range(k)]
+                base = {m.BV(i, w): m.Int(10 + i) for i in idxs}
+                for d1, d2 in ((0, 0), (0, 1), (1, 0)):
+                    a = m.Array(it, m.Int(d1), dict(base))
+                    variants = [dict(base)]
+                    if idxs:
+                        v = dict(base); v[m.BV(idxs[-1], w)] = m.Int(99); variants.append(v)     # one entry differs
+                        v = dict(base); del v[m.BV(idxs[0], w)]; variants.append(v)              # one entry missing
+                        v = dict(base); v[m.BV(idxs[0], w)] = m.Int(d2); variants.append(v)      # entry equal to the default
+                    for v in variants:
+                        b = m.Array(it, m.Int(d2), v)
+                        out.append(m.Equals(a, b))
+                    out.append(m.Select(a, m.BV(dom[-1], w)))
+                    out.append(m.Equals(m.Store(a, m.BV(dom[0], w), m.Int(d2)), m.Array(it, m.Int(d2), dict(base))))
+    b0, b1 = m.Bool(False), m.Bool(True)
+    from pysmt.typing import BOOL as _B
+    for d1 in (0, 1):
+        for d2 in (0, 1):
+            for e1 in ({}, {b0: m.Int(5)}, {b0: m.Int(5), b1: m.Int(6)}, {b1: m.Int(6)}):
+                for e2 in ({}, {b0: m.Int(5)}, {b0: m.Int(5), b1: m.Int(6)}, {b1: m.Int(7)}):
+                    out.append(m.Equals(m.Array(_B, m.Int(d1), dict(e1)), m.Array(_B, m.Int(d2), dict(e2))))
+    return out
+
+
+def routes_check(ctx, model, f, completion, r, rep):
+    """every public route to the value (get_values, get_py_value, get_py_values, model[f]) must give what
+    get_value gave under the same completion flag: the same node / python value, or raise when it raised"""
+    routes = [("get_values", lambda: model.get_values([f], model_completion=completion)[f], "node"),
+              ("get_py_value", lambda: model.get_py_value(f, model_completion=completion), "py"),
+              ("get_py_values", lambda: model.get_py_values([f], model_completion=completion)[f], "py")]
+    if completion:
+        routes.append(("getitem", lambda: model[f], "node"))
+    for name, call, kind in routes:
+        if kind == "py" and (r is not None) and (not r.is_constant() or r.is_array_value()):
+            continue
+        try:
+            v = call()
+            got = ("ok", v)
+        except (PysmtException, AssertionError) as e:
+            got = ("err", type(e).__name__)
+        ctx.count("route_" + name)
+        if r is None:
+            bad = got[0] == "ok"
+        elif got[0] == "err":
+            bad = True
+        elif kind == "node":
+            bad = got[1] is not r
+        else:
+            cv = r.constant_value()
+            bad = not (got[1] == cv and type(got[1]) is type(cv))
+        if bad:
+            ctx.report_s({"oracle": "route", "route": name, "completion": bool(completion)},
+                         "%s(model_completion=%s) gave %r where get_value gave %s" %
+                         (name, completion, got, "an error" if r is None else semantic.readable(r)),
+                         dict(rep, route=name))
+
+
+# ---------------------------------------------------------------------------------------------
+# K — correspondence: EagerModel.get_value / Model.satisfies end to end against the Lean model
+# `Model.getValue'` / `Model.satisfies'` (Impl/Model.lean), whose substitution step is the model of
+# MGSubstituter (every node rebuilt through the manager constructors), driver Drivers/C02.lean.
+
+def k_add(k_cases, asg, f, completion, result, sat, tag):
+    """one executed call: the assignment handed to EagerModel, the formula, what the code returned
+    (`result` = the FNode, None = it raised; `sat` = satisfies() or None when it was not called)"""
+    try:
+        parts = ["%s %s %s" % (wire.hexs(k.symbol_name()), wire.enc_type(k.symbol_type()), wire.enc_term(v))
+                 for k, v in asg.items()]
+        ef = wire.enc_term(f)
+        out = "none" if result is None else wire.enc_term(result)
+    except wire.OutOfFragment:
+        return
+    k_cases.append(("getvalue %d %d %s %s" % (1 if completion else 0, len(parts), " ".join(parts), ef),
+                    "gv", f, out, tag))
+    if sat is not None:
+        exp = sat if isinstance(sat, str) else ("true" if sat else "false")
+        k_cases.append(("satisfies %d %s %s" % (len(parts), " ".join(parts), ef), "sat", f, exp, tag))
+
+
+def rebuild_stream(ctx, env, k_cases):
+    """formulas on which MGSubstituter's rebuilding through the constructors changes the shape of the
+    term before the simplifier sees it: Div by a symbol that becomes a constant (Times with the inverse,
+    or Div by the constant 0), ToReal of a symbol that becomes a constant, array values whose entries /
+    default change (entries equal to the new default are dropped), bit-vector operators over symbols"""
+    from fractions import Fraction
+    from pysmt.typing import INT, REAL, BVType, ArrayType
+    m = env.formula_manager
+    x, y, i, j, p = (m.Symbol("rb_x", REAL), m.Symbol("rb_y", REAL), m.Symbol("rb_i", INT), m.Symbol("rb_j", INT),
+                     m.Symbol("rb_p", BOOL))
+    b = m.Symbol("rb_b", BVType(4))
+    a = m.Symbol("rb_a", ArrayType(INT, INT))
+    forms = [m.Div(x, y), m.Plus(m.Div(x, y), m.Real(1)), m.Div(m.ToReal(i), y), m.ToReal(i),
+             m.Times(m.ToReal(i), m.Div(x, m.Plus(y, y))), m.Not(p), m.And(m.Not(p), m.LE(m.Div(x, y), x)),
+             m.Ite(m.Equals(y, m.Real(0)), m.Real(0), m.Div(x, y)),
+             m.Select(m.Array(INT, i, {m.Int(1): j, m.Int(2): m.Int(0)}), j),
+             m.Equals(m.Array(INT, i, {m.Int(1): j}), m.Array(INT, m.Int(0))),
+             m.Array(INT, i, {m.Int(1): j, m.Int(2): m.Plus(i, j)}),
+             m.Store(m.Array(INT, i, {m.Int(1): j}), j, i), m.Store(a, i, j), m.Select(m.Store(a, i, j), m.Int(1)),
+             m.BVAdd(b, m.BVNot(b)), m.BVConcat(b, m.BVExtract(b, 1, 2)), m.BVZExt(m.BVRol(b, 1), 2),
+             m.Div(i, j), m.Plus(m.Div(i, j), i)]
+    vals = {x: [Fraction(0), Fraction(3, 2), Fraction(-1)], y: [Fraction(0), Fraction(2), Fraction(-1, 3)],
+            i: [0, 1, -2], j: [0, 1, 2], p: [True, False], b: [0, 5, 15]}
+    arrs = [m.Array(INT, m.Int(0)), m.Array(INT, m.Int(1), {m.Int(1): m.Int(0), m.Int(3): m.Int(7)})]
+    from pysmt.exceptions import PysmtException
+    for f in forms:
+        fv = sorted(f.get_free_variables(), key=lambda s: s.symbol_name())
+        for k in range(9):
+            asg = {}
+            for s in fv:
+                if s is a:
+                    asg[s] = arrs[k % 2]
+                    continue
+                v = vals[s][(k // (1 + fv.index(s))) % len(vals[s])]
+                t = s.symbol_type()
+                asg[s] = (m.Bool(v) if t.is_bool_type() else m.Int(v) if t.is_int_type() else
+                          m.Real(v) if t.is_real_type() else m.BV(v, 4))
+            drop = None
+            if k % 3 == 2 and fv and fv[0] is not a:
+                drop = fv[0]
+                del asg[drop]
+            for completion in ((True, False) if drop is not None else (True,)):
+                try:
+                    r = EagerModel(asg, env).get_value(f, model_completion=completion)
+                except PysmtException:
+                    r = None
+                sat = None
+                if f.get_type().is_bool_type() and completion:
+                    try:
+                        sat = EagerModel(asg, env).satisfies(f)
+                    except PysmtException as e:
+                        sat = "none"
+                k_add(k_cases, asg, f, completion, r, sat, "rebuild")
+                ctx.count("k_rebuild_stream")
+
+
+def k_run(ctx, k_cases):
+    lines = [c[0] for c in k_cases]
+    try:
+        ans = ctx.lean_run_sharded("C02", lines)
+    except common.LeanError as e:
+        ctx.report_l("driver C02 does not run", str(e))
+        return
+    for (line, kind, f, out, tag), a in zip(k_cases, ans):
+        if a == "out-of-fragment":
+            ctx.count("k_out_of_fragment")
+            continue
+        if a.startswith("bad-op"):
+            ctx.infra("C02 driver rejected a request: %s :: %s" % (a[:80], semantic.readable(f, 200)))
+            continue
+        ctx.count("k_%s_compared" % kind)
+        ctx.count("k_%s_%s" % (kind, tag))
+        if kind == "sat":
+            same = (a == out) or (out.startswith("err:") and a == "none")
+        elif a == "none" or out == "none":
+            same = a == out
+            ctx.count("k_gv_raises" if same else "k_gv_raise_mismatch")
+        else:
+            same = wire.canon_key(wire.dec_term(a)) == wire.canon_key(wire.dec_term(out))
+        if not same:
+            ctx.report_k("%s: model %s, implementation %s on %s" % (kind, a[:80], out[:80], semantic.readable(f, 200)),
+                         {"formula": semantic.readable(f, 1000), "request": line, "lean": a, "impl": out, "mode": tag,
+                          "assignment": []})
+    ctx.extra["k_calls"] = len(k_cases)
+
+
 def run(ctx):
     n = 6000 if ctx.tier == "quick" else 60000
     genv = Environment()
     widths = (1, 2, 3) if ctx.tier == "quick" else (1, 2, 3, 4)
     run_ground(ctx, genv, bv_exhaustive(ctx, genv, widths), "bv_exhaustive")
     ctx.extra["bv_exhaustive_widths"] = list(widths)
+    run_ground(ctx, Environment(), array_equalities(genv, (1, 2, 3, 4)), "array_equalities")
     env = Environment()
     uni = gen.Universe(env, theories=("bool", "int", "real", "bv", "str", "arr"))
     fg = gen.FormulaGen(ctx.rng, uni, max_depth=4, quant_prob=0.0)
     ig = gen.InterpGen(ctx.rng, uni)
     mgr = env.formula_manager
     lines, meta = [], []
+    k_cases = []
+    rebuild_stream(ctx, env, k_cases)
     for i in range(n):
         if ctx.time_left() < 40:
             break
@@ -145,8 +332,15 @@ def run(ctx):
         except wire.OutOfFragment:
             ctx.count("out_of_fragment")
             continue
+        routes_check(ctx, model, f, mode != "partial-nocomplete", r if out[0] == "ok" else None,
+                     {"formula": semantic.readable(f), "mode": mode, "request": line, "lean": "", "impl": repr(out),
+                      "assignment": [(nm, str(t), repr(v)) for nm, t, v in syms_eff]})
         lines.append(line)
         meta.append((f, mode, out, sat, syms_eff, dropped))
+        # K on every case in the thorough tier, on one case in four in the quick tier (the interpreted driver
+        # needs ~10 ms per call)
+        if ctx.tier != "quick" or len(meta) % 4 == 0:
+            k_add(k_cases, asg, f, mode != "partial-nocomplete", r if out[0] == "ok" else None, sat, mode)
         ctx.count("mode_" + mode)
         ctx.count("type_" + str(ty).split("{")[0].split("(")[0])
     try:
@@ -186,6 +380,7 @@ def run(ctx):
         if sat is not None and sat != (expected is True):
             ctx.report_s({"oracle": "eval", "kind": "satisfies-mismatch"},
                          "satisfies() = %r but value is %r" % (sat, expected), rep)
+    k_run(ctx, k_cases)
 
 
 def replay(ctx, rep):
